@@ -28,7 +28,7 @@ PROPS = {
                 invariants="FunctionPatternsInv (MC), FunctionPatternsExact/NothingOutsideSquare (TV), LayoutLemmas"),
     "C04": dict(scen=[("core", "formats", True), ("hooked", "tables", False)], mc=mc_join(PIPE, LEMMAS),
                 invariants="FormatVersionTruthInv (MC), FormatCopiesExact/VersionInfoExact/ReportedFieldsTruth/ReportedModeTruth/ForcedOptionsHonoured (TV), TableLemmas (BCH distances)"),
-    "C05": dict(scen=[("core", "thresholds", True), ("hooked", "versionget", False)], mc=mc_join(PIPE, LEMMAS),
+    "C05": dict(scen=[("core", "thresholds", True), ("core", "giant", True), ("hooked", "versionget", False)], mc=mc_join(PIPE, LEMMAS),
                 invariants="MinimalVersionInv, OutcomeTotal (MC), MinimalVersion/ExpectedOutcome (TV), EncodeLemmas (monotonicity)"),
     "C06": dict(scen=[("core", "cells", True), ("core", "lengths", True), ("core", "structured", True), ("hooked", "encode", False), ("hooked", "tables", False)], mc=PIPE,
                 invariants="DataCodewordsISOInv, StagedEqualsClosedForm (MC), DataCodewordsISO (TV)"),
@@ -38,7 +38,7 @@ PROPS = {
                 invariants="MaskExactInv (MC), same-unmasked-symbol per group + MaskOp (TV), MaskLemmas"),
     "C09": dict(scen=[("core", "modes", True), ("hooked", "bestmode", False)], mc=mc_join(PIPE, LEMMAS),
                 invariants="AutoModeCompactInv (MC), AutoModeCompact/BestMode (TV), EncodeLemmas"),
-    "C10": dict(scen=[("core", "total", True)], mc=PIPE, invariants="OutcomeTotal (MC), Panic/Timeout outcomes match no action (TV)"),
+    "C10": dict(scen=[("core", "total", True), ("core", "aftermath", True)], mc=PIPE, invariants="OutcomeTotal (MC), Panic/Timeout outcomes match no action (TV)"),
     "C11": dict(scen=[("hooked", "candidates", False), ("core", "candgroups", True)], mc=mc_join(MSEL, PIPE), apalache=["MaskSelect"],
                 invariants="MaskMinimalInv (MC_Pipeline), Minimal/IndInv (MC_MaskSelect, Apalache), chosen in argmin of Penalty over recorded candidates (TV)"),
     "C15": dict(scen=[("core", "cells", True), ("core", "callbacks", True), ("hooked", "maskop", False)], mc=mc_join(PIPE, LEMMAS),
@@ -62,7 +62,7 @@ PROPS.update({
 GEN = {"fileio": ("FileIO.tla", "MC_FileIO.cfg", False), "wasm": ("MC_Wasm.tla", "MC_Wasm_{tier}.cfg", True),
        "histories": ("MC_Builder.tla", "MC_Builder_{variant}_{tier}.cfg", False),
        "sessions": ("MC_RenderSession.tla", "MC_RenderSession_{tier}.cfg", True)}
-PROPS["C14"] = dict(scen=[("core", "histories:SeqEclMask", True), ("core", "histories:SeqModeVersion", True), ("core", "histories:EclMask", True), ("core", "histories:ModeVersion", True), ("core", "histories:EclVersion", True), ("core", "threads", True), ("core", "sessions", True), ("core", "soak", True)],
+PROPS["C14"] = dict(scen=[("core", "histories:SeqEclMask", True), ("core", "histories:SeqModeVersion", True), ("core", "histories:EclMask", True), ("core", "histories:ModeVersion", True), ("core", "histories:EclVersion", True), ("core", "histories:SeqRejected", True), ("core", "histories:Rejected", True), ("core", "aftermath", True), ("core", "threads", True), ("core", "sessions", True), ("core", "soak", True)],
                     mc={"quick": [], "thorough": []},
                     invariants="Deterministic, SnapshotIsRegisters, BuildReadOnly (MC_Builder, every interleaving of 2 builders x 2 threads; GEN -> replay); HNew/HSet/HBuild judged on the registers the model holds, equal registers => equal results, renders read-only and repeatable (TV)")
 
@@ -77,7 +77,7 @@ CLAIMS = {
          "Exhaustive over (version, coordinate); payload, level and mask are sampled per cell (payload-independence is observed, not proved)."),
  "C04": ("Both format copies and both version copies are read from the symbol and must be the BCH(15,5)/BCH(18,6) code words generated from their generator polynomials; reported level/mask/version/mode/size must equal what the symbol encodes and every forced option; covered: 320 (quick) / all 1 280 (thorough) forced (version, level, mask) cells, all 16 forced/automatic combinations of the four options x 4 levels x 8 masks, default level Q.",
          "Payloads are short and sampled; the option lattice is enumerated on small versions only."),
- "C05": ("Version choice and error outcome of every build are compared with MinVersion derived from the bit-length formula: all 1 440 capacity thresholds (mode, level, version) x {cap-1, cap, cap+1}, every forced version x 3 lengths, the thresholds of the default level with and without a forced version, lengths up to 10^6; through the hook tier the version lookup is judged for every length 0..7200 x 3 modes x 4 levels (run-length encoded, sound by the monotonicity lemma).",
+ "C05": ("Version choice and error outcome of every build are compared with MinVersion derived from the bit-length formula: all 1 440 capacity thresholds (mode, level, version) x {cap-1, cap, cap+1}, every forced version x 3 lengths, the thresholds of the default level with and without a forced version, lengths up to 10^6 and inputs of 390 MB to 537 MB (4 GiB + 7000 in thorough) whose length x 8 / 10 / 11 crosses 2^32; through the hook tier the version lookup is judged for every length 0..7200 x 3 modes x 4 levels (run-length encoded, sound by the monotonicity lemma).",
          "Large symbols are judged on outcome and reported fields only in the quick tier (fully decoded in thorough). A panic or hang is an outcome that matches no action of the specification."),
  "C06": ("Data codewords read back from every built symbol, and the encoder's output alone through the hook tier (480 (version, level, mode) cells x lengths leaving 0..12 spare bits, all residues), must equal the closed-form ISO 7.4 bit stream of QREncode.tla bit for bit (mode indicator, count width per version class, group packing, terminator, zero fill, pad alternation); MC checks the staged encoder of the machine equal to the closed form.",
          "Payload contents sampled; the count widths and mode indicators are typed into the specification."),
@@ -87,19 +87,19 @@ CLAIMS = {
          "One level per version in the quick tier (all four in thorough); payloads sampled."),
  "C09": ("Reported mode and decoded mode indicator against BestMode: all 256 byte values at every position of strings of length <= 4 and at four positions of lengths 8, 9, 16, 17, 33, with digit and alphanumeric filler; all class patterns up to length 6 / 8; long strings; the classifier alone on 6 000 / 100 000 inputs through the hook tier. A crash of an automatic-mode build is attributed to this property when the same input builds with the most compact mode forced.",
          "Long strings are sampled."),
- "C10": ("Every build runs under catch_unwind on a watchdog thread with overflow checks and debug assertions on; Panic/Timeout outcomes match no action. Covered: seeded lengths up to 8 000 (every length in thorough), the 2^16 neighbourhood and 10^5/10^6, six content kinds, every byte value as only content, the empty input, all combinations of {unset, smallest, largest} per option.",
+ "C10": ("Every build runs under catch_unwind on a watchdog thread with overflow checks and debug assertions on; Panic/Timeout outcomes match no action. Covered: seeded lengths up to 8 000 (every length in thorough), the 2^16 neighbourhood, 10^5/10^6 and 390-537 MB inputs (beyond 2^32 in thorough), builds that follow a rejected or failing request on the same thread (aftermath), six content kinds, every byte value as only content, the empty input, all combinations of {unset, smallest, largest} per option.",
          "Non-termination is bounded by a 30 s watchdog, not proved. Memory safety is what Rust's checks plus the enabled assertions trap."),
- "C11": ("The recorder hook gives the eight candidates as the selection loop saw them; TLC computes the documented penalty of each (runs, 1011101 windows, 2x2 blocks, dark ratio; line-scan formulation proved equal to the per-cell one on sample matrices) and the emitted mask must be an arg-min; a forced mask must override. Inputs are selected for close calls (700 closest of 12 000 small symbols). Design level: the selection loop is model-checked over all score vectors in a small range and proved for unbounded scores with Apalache. Public-API fallback: eight forced-mask builds plus the automatic one.",
+ "C11": ("The recorder hook gives the eight candidates as the selection loop saw them; TLC computes the documented penalty of each (runs, 1011101 windows, 2x2 blocks, dark ratio; line-scan formulation proved equal to the per-cell one on sample matrices) and the emitted mask must be an arg-min; a forced mask must override. Inputs are selected for close calls (700 closest of 12 000 small symbols), uniform contents reach the highest penalties, and a steered search puts a candidate exactly on a step of the dark-ratio term (2/5 or 3/5 of the modules dark, versions whose side is a multiple of 5) while within ten points of the best other candidate. Design level: the selection loop is model-checked over all score vectors in a small range and proved for unbounded scores with Apalache. Public-API fallback: eight forced-mask builds plus the automatic one.",
          "Payload-sampled: only a flipped arg-min is observable. Ties are allowed."),
  "C12": ("MC_Render model-checks the register machine and the model's own SVG renderer (all 512 3x3 matrices x setter programs) against the same predicates; the harness generates every builder program up to length 2 (3 in thorough, sampled) over 21 abstract calls plus random longer ones, all 40 versions x 6 shapes, hand-made matrices (all dark, all light, stripes, border, sparse), custom shape callbacks, renderer sessions exported by TLC, a pool of 27 image strings; a roxmltree + kurbo sensor projects each document (well-formedness, viewBox, rectangles, per layer the cell of every sub-path, colours, image href) and TLC judges the projection against the register machine RegsAfter(program).",
          "XML and SVG path syntax are read by the sensor (roxmltree, kurbo), not by TLA+. hrefs are compared modulo XML attribute-value normalisation."),
  "C13": ("Pixmaps of 6 shapes x versions x margins x 6 fit modes x 4 colour pairs are projected to a palette and a per-cell palette index (plus cell uniformity at integer scale); TLC computes the expected side and premultiplied colours from the program and judges every cell centre (>= 4 px per module, or square at integer scale) and every cell of square symbols; the PNG is decoded independently and must equal the pixmap.",
          "resvg's rasterisation is observed, not modelled; translucent module colours are outside the claimed domain."),
- "C14": ("TLC explores every interleaving of setters and builds of 2 builders x 2 threads (length 4/5) and every sequential program of one builder (length 6/7), exports them, and the harness replays each on real QRBuilders with persistent worker threads; every build is judged on the registers the MODEL holds for that builder, and equal registers must give equal results across all histories; seeded concurrent programs on 1..16 threads add shared builders and all three renderers (read-only, repeatable, distinguishing different codes); renderer sessions exported by TLC from RenderSession.tla (setter calls and renderings interleaved on one builder object) must render like a fresh builder given the same calls; a soak run repeats one build and one rendering 6 000 / 70 000 times and every result must equal the first.",
+ "C14": ("TLC explores every interleaving of setters and builds of 2 builders x 2 threads (length 4/5) and every sequential program of one builder (length 6/7), exports them, and the harness replays each on real QRBuilders with persistent worker threads; every build is judged on the registers the MODEL holds for that builder, and equal registers must give equal results across all histories; seeded concurrent programs on 1..16 threads add shared builders and all three renderers (read-only, repeatable, distinguishing different codes); renderer sessions exported by TLC from RenderSession.tla (setter calls and renderings interleaved on one builder object) must render like a fresh builder given the same calls; the histories are also replayed with option values under which one builder is REJECTED (forced mode that cannot carry its input: caught panic, no claim about that build) or fails with a documented error, and `aftermath` puts eight kinds of such disturbances between two identical requests on one thread - what follows a rejected request is judged like any other build; a soak run repeats one build and one rendering 6 000 / 70 000 times and every result must equal the first.",
          "Real OS schedules are sampled; the exhaustive interleaving is of the model, whose thread-locality is what per-thread validation binds to the code."),
  "C15": ("Type labels of every module of every built symbol (and of the blank symbols, and before/after each mask sweep) against the region map of QRLayout.tla; the number of data labels against 8 x total codewords + remainder bits.",
          "Modules where an alignment pattern lies on a timing line may carry either label (ISO assigns them to both)."),
- "C16": ("All 40 sizes x 2 / 6 symbols plus hand-made matrices: line count, line width, alphabet, one-module light border, and every module decoded back in place from the (top, bottom) reading; MC: decode o render = id on all 512 3x3 matrices for the model's renderer.",
+ "C16": ("All 40 sizes x 2 / 6 symbols plus hand-made matrices: line count, line width, alphabet, one-module light border, and every module decoded back in place from the (top, bottom) reading; what QRCode::print writes to the process' standard output (captured through a redirected descriptor) must be that rendering and a line terminator; MC: decode o render = id on all 512 3x3 matrices for the model's renderer.",
          "The upper half of the first line is outside the picture and unconstrained."),
  "C17": ("wasm.rs compiled on the host through a guarded #[path] module. TLC exports every setter program over a 36-call alphabet (well-formed and malformed values) up to length 2 / 3; each is replayed under catch_unwind; the export must be empty exactly when the specification says the content cannot be encoded, equal to the native output (string equality when no malformed value is involved, field by field modulo havoc registers otherwise), and the native settings used for comparison must be the model's NativeOf(W_After(program)).",
          "Needs the hook tier (exit 2 without it). A malformed value leaves its register unspecified in the model."),
@@ -131,7 +131,7 @@ def diag_key(d):
     return d.get("key") or f"{d.get('tag','')}|{d.get('why','')}".replace(" ", "_")
 
 
-INPUT_KEYS = ("ev", "tag", "input", "rep", "opts", "program", "content", "version", "ecl", "mode", "mask", "size", "vals", "before", "errors", "deg", "byte",
+INPUT_KEYS = ("ev", "tag", "input", "rep", "true_len", "opts", "program", "content", "version", "ecl", "mode", "mask", "size", "vals", "before", "errors", "deg", "byte",
               "data", "from", "to", "items", "fault", "limit", "renderer", "shape", "margin", "bid", "tid", "grp", "opt", "val", "name", "how", "c", "value", "type", "qrid", "len")
 
 
@@ -284,6 +284,8 @@ def run_property(pid, tier, seed, replay=None, spec=None):
         extra = []
         if variant:
             extra += ["--grp0", str(100000 * (1 + scen_index))]
+        if variant.endswith("Rejected"):      # same histories as ModeVersion, replayed with option values under which builder 1 is rejected
+            extra += ["--mapping", "rejected"]
         if scen in GEN:
             mod, cfg, alpha = GEN[scen]
             cfg = cfg.format(tier=tier, variant=variant)
